@@ -33,6 +33,9 @@ CHECKS = {
  "C08": ("exhaustive enumeration of successful lines (configurations x argv prefix tree) x all applicable spelling rewrites and their pairwise compositions, observation-equality oracle; plus exhaustive prefix enumeration on shared-prefix trees",
          "For every conventional configuration x every argv in A(cfg)^<=L that parses and that the documented-grammar reader accepts, every applicable rewrite of a root-level token (--o=v<->--o v, -ov<->-o v<->-o=v, cluster<->separate shorts, alias<->canonical, unique prefix<->full name, explicit -- before plain trailing positionals) and every composition of two is parsed and must give the same observation (values, grouping, sources, indices up to renumbering). Ambiguity family: every prefix of every long/alias/subcommand name of two trees with shared prefixes (incl. another argument's alias and the generated help/version): ambiguous prefixes must never be accepted, exact names win, unique prefixes resolve.",
          "Trusted: the rewrite generator (checks/src/bin/c08.rs) and R1's reading that drives it; rewrites are only applied where documentation makes spellings equivalent (single-value options, non-flag-looking positionals).", "DESIGN.md §4 C08"),
+ "C09": ("exhaustive construction of all lines over a bounded tree family: chains x spellings x per-level placements of locals and of the global, expected structure known by construction",
+         "180 tree configurations (6 naming variants of the subcommands incl. long-flag-alias-only, 5 kinds of global argument, defined at level 0 or 1, external subcommands none/String/OsString at the deepest level) x every chain of depth 0..2 below the root spelled every available way (name, alias, long flag, short flag, short-flag cluster carrying the level's own shorts and a value-less global) x every combination of two local flags per level (the second always in a later short group, exercising the cluster resume logic) x every subset of levels supplying the global x external tails. Oracle: reported chain == named chain; locals attributed to their level only; the global has identical value and source at every level at/below its definition, command-line source and one level's occurrences when supplied, its default otherwise; external name and arguments verbatim.",
+         "Trusted: line construction in checks/src/bin/c09.rs (the expectation is built together with the line). Which level wins when a global is supplied at several levels is deliberately not asserted. Trees deeper than 3 levels or with more than 2 children are not explored.", "DESIGN.md §4 C09"),
 }
 PENDING_REASON = "check not built yet in this round (design in DESIGN.md §4); will be claimed when its checker exists"
 props = [json.loads(l) for l in open('/verif/properties.jsonl')]
